@@ -223,7 +223,7 @@ def largest_connected_hypergraph(H, in_place=False):
     6
 
     """
-    connected_nodes = max(connected_components(H), key=len)
+    connected_nodes = max(connected_components(H), key=len, default=set())
     if not in_place:
         return subhypergraph(H, nodes=connected_nodes).copy()
     else:
